@@ -110,6 +110,27 @@ def combiner_rules(rep, ctx, a, key):
             # (the last: the draw sits in the closure of `fold` / `map` / `for_each`, which runs once per element)
             live_in_loop.append((bid, i, t))
     rep.count("rng_draw_sites", len(draws))
+    # R15 (not memoised): no drawn combiner is parked first-wins in a keyed container (`entry(k).or_insert(r)`,
+    # `get_or_insert`): every later query that maps to the same key would meet the same combiner
+    from ..rules import exact as R11
+    drawn = {("CALLRES", bid, i) for bid, i, t in draws}
+    memo = None
+    for bid in sorted(g.scope):
+        body = f.bodies[bid]
+        for i, t in body.calls():
+            nm = (t.get("callee") or "").rsplit("::", 1)[-1]
+            if nm not in ("or_insert", "or_insert_with", "get_or_insert", "get_or_insert_with", "or_insert_with_key") or body.blocks[i]["cleanup"]:
+                continue
+            for a_ in t["args"][1:]:
+                if a_.get("k") not in ("copy", "move"):
+                    continue
+                srcs, _, _ = R11.origins(g, (bid, a_["pl"]["l"]))
+                if srcs & drawn and memo is None:
+                    memo = (nm, t["span"])
+    rep.add("R15", "%s:combiner-not-memoised" % key, memo is None,
+            "no drawn combiner is stored first-wins in a keyed container" if memo is None else
+            "the combiner drawn from the rng is parked by `%s` at %s: queries that map to the same key are folded with the same "
+            "combiner, so their errors can cancel" % memo, memo[1] if memo else a.body.span)
     if live_in_loop:
         rep.add("R15", "%s:fresh-combiner" % key, True, "random combiner drawn inside the per-query loop at %s" %
                 live_in_loop[0][2]["span"], live_in_loop[0][2]["span"])
